@@ -36,9 +36,10 @@ fn idents_of(ts: proc_macro2::TokenStream, out: &mut BTreeSet<String>) {
 }
 
 /// identifiers that occur in educe's output but not in the input, per trait
-pub fn harvest(seed: u64) -> (Vec<String>, BTreeMap<String, BTreeSet<String>>) {
+pub fn harvest(seed: u64) -> (Vec<String>, BTreeMap<String, BTreeSet<String>>, Vec<String>) {
     let mut all: BTreeSet<String> = BTreeSet::new();
     let mut per: BTreeMap<String, BTreeSet<String>> = BTreeMap::new();
+    let mut prefixes: BTreeSet<String> = BTreeSet::new();
     let trees = check::draw(seed, 0x4A7, 400, 420);
     let cfg = GenCfg::full();
     for t in trees {
@@ -71,8 +72,19 @@ pub fn harvest(seed: u64) -> (Vec<String>, BTreeMap<String, BTreeSet<String>>) {
                         if id.ends_with('x') && mine.contains(&id[..id.len() - 1]) {
                             continue;
                         }
-                        // bindings derived from the user's own field names follow the field; they are not fixed internal names
-                        if ["_s_", "_d_", "_o_", "v_", "_"].iter().any(|pre| id.strip_prefix(pre).map(|rest| mine.contains(rest)).unwrap_or(false)) {
+                        // bindings derived from the user's own field names follow the field: remember HOW they are derived
+                        // (the prefix), so that sibling fields can be given exactly such names
+                        let mut derived = false;
+                        for m in mine.iter() {
+                            if m.len() >= 1 && id.len() > m.len() && id.ends_with(m.as_str()) {
+                                let pre = &id[..id.len() - m.len()];
+                                if pre.len() <= 4 && pre.chars().all(|c| c == '_' || c.is_ascii_lowercase()) && pre.contains('_') {
+                                    prefixes.insert(pre.to_string());
+                                    derived = true;
+                                }
+                            }
+                        }
+                        if derived {
                             continue;
                         }
                         // bindings derived from the user's own field names (`_s_a`, `_d_a`, `v_a`, `_a`) follow the field
@@ -84,7 +96,7 @@ pub fn harvest(seed: u64) -> (Vec<String>, BTreeMap<String, BTreeSet<String>>) {
         }
     }
     // names of the std paths are only interesting as user *type-like* names; keep everything, the classes tell them apart
-    (all.into_iter().collect(), per)
+    (all.into_iter().collect(), per, prefixes.into_iter().collect())
 }
 
 fn behaviours() -> Vec<Behaviour> {
@@ -98,15 +110,16 @@ struct Case {
     hostile_hits: usize,
 }
 
-fn prepare(dna: &[u16], pool: &[String], per: &BTreeMap<String, BTreeSet<String>>) -> Option<Case> {
+fn prepare(dna: &[u16], pool: &[String], per: &BTreeMap<String, BTreeSet<String>>, prefixes: &[String]) -> Option<Case> {
     let mut d = Dna::new(dna);
     let bs = behaviours();
     let b = &bs[d.pick(bs.len())];
-    let env_kind = d.weighted(&[45, 35, 20]);
+    let env_kind = d.weighted(&[30, 25, 15, 30]);
     let (env, env_name) = match env_kind {
-        0 => (Env { names: Some(pool.to_vec()), shadow: false }, "E3-internal-names"),
-        1 => (Env { names: None, shadow: true }, "E2-shadowed-prelude"),
-        _ => (Env { names: Some(pool.to_vec()), shadow: true }, "E2+E3"),
+        0 => (Env { names: Some(pool.to_vec()), shadow: false, derive_prefixes: vec![] }, "E3-internal-names"),
+        1 => (Env { names: None, shadow: true, derive_prefixes: vec![] }, "E2-shadowed-prelude"),
+        2 => (Env { names: Some(pool.to_vec()), shadow: true, derive_prefixes: prefixes.to_vec() }, "E2+E3"),
+        _ => (Env { names: None, shadow: false, derive_prefixes: prefixes.to_vec() }, "E3-derived-binding-names"),
     };
     // the rest of the stream builds the spec exactly as the behaviour's own check would
     let rest: Vec<u16> = dna.iter().skip(d.used()).copied().collect();
@@ -161,7 +174,8 @@ pub fn run(ctx: &Ctx) -> i32 {
             return rep.finish();
         },
     };
-    let (pool, per) = harvest(ctx.seed);
+    let (pool, per, prefixes) = harvest(ctx.seed);
+    rep.extra.insert("harvested_binding_prefixes".into(), json!(prefixes));
     let _ = crate::known::HARVEST.set(pool.clone());
     rep.extra.insert("harvested_identifiers".into(), json!(pool));
     if pool.len() < 10 {
@@ -172,7 +186,7 @@ pub fn run(ctx: &Ctx) -> i32 {
     let trees = check::draw(ctx.seed, 0xC19, n, 540);
     let mut cases: Vec<(usize, Case)> = Vec::new();
     for (i, t) in trees.iter().enumerate() {
-        match prepare(&t.current(), &pool, &per) {
+        match prepare(&t.current(), &pool, &per, &prefixes) {
             Some(c) => cases.push((i, c)),
             None => rep.count("skipped_by_generator", 1),
         }
@@ -190,6 +204,7 @@ pub fn run(ctx: &Ctx) -> i32 {
         rep.count("runtime_checks", o.checks);
         rep.count("user_identifiers_hitting_generated_identifiers", c.hostile_hits as u64);
         if c.hostile_hits > 0 || c.env_name != "E3-internal-names" {
+            // (derived-binding cases count when a field was actually renamed to prefix + sibling)
             rep.nontrivial.insert(fnv64(&c.p.unit.body));
         }
         if rep.samples.len() < 4 && k % 29 == 0 {
